@@ -167,4 +167,13 @@ def jan1Add (year : Int) (d : Option TzStr.Delta) : R Int :=
   | some d => TzStr.applyDelta year d
   | none => .error .TypeError
 
+/-! ### `tzlocal`: the C library's view of the local zone -/
+
+/-- `time.timezone`: seconds WEST of UTC of the local standard time -/
+def timeTimezone (z : TZ.RangeZone) : Int := -z.stdOff
+
+/-- `time.localtime(u).tm_isdst` for a (float) UTC timestamp `u`: the C library, which follows the zone's yearly rule
+    (`TZ.localNaiveIsdst`, stated on the naive standard-time reading `u + stdoffset`; the fraction is floored) -/
+def localtimeIsdst (z : TZ.RangeZone) (u : Ts) : Int := b2i (TZ.localNaiveIsdst z (u / M + z.stdOff))
+
 end ObjPy
